@@ -153,6 +153,7 @@ structure Constr where
   optional : Bool
   operand : Bool              -- `_created_from_assertion`
   body : CBody
+  refs : List Nat := []       -- ids of the constraints this one used as operands
   deriving Inhabited
 
 structure Buffer where
